@@ -17,6 +17,7 @@ RSPIRV_ENUM_FILES = [
     ("rspirv/sr/autogen_types.rs", ["types", "sr::types", "sr"]),
     ("rspirv/sr/constants.rs", ["constants", "sr::constants", "sr"]),
     ("rspirv/lift/mod.rs", ["lift"]),
+    ("rspirv/sr/autogen_ops.rs", ["autogen_ops", "sr::autogen_ops", "ops", "sr::ops"]),
 ]
 
 
